@@ -39,7 +39,61 @@ _decoy = {"n": 0, "busy": False}
 INTERFERENCE = {"all": False}
 
 
-def _make_decoys():
+def _twin_model(model):
+    """another instance of the same model class with other parameters, and a generic constant state for it"""
+    name = type(model).__name__
+    mod = type(model).__module__.rsplit(".", 1)[-1]
+    if name == "nozzle":
+        return _real["euler"].nozzle(lambda x: 1.3 + 0.2 * x, gamma=1.11), [1.1, 0.2, 2.6]
+    if name == "euler2d":
+        return _real["euler"].euler2d(gamma=1.876), [1.1, [0.2, -0.1], 2.6]
+    if mod == "euler" and name in ("euler1d", "model", "euler"):
+        return _real["euler"].euler1d(gamma=1.234), [1.1, 0.2, 2.6]
+    if mod == "shallowwater":
+        return _real["shallow"].shallowwater1d(g=3.21), [1.2, 0.1]
+    if mod == "burgers":
+        return _real["burgers"].model(), [0.3]
+    if mod == "convection":
+        return _real["convection"].model(-7.7), [0.3]
+    return None, None
+
+
+def _shape_twin(disc):
+    """a discretisation of the same shape (number of cells, faces) as the one just made but with other sizes, origin, parameters and
+    reconstruction object, constructed and *used* (rhs, time step) before the real one is: whatever the library keeps outside the
+    objects it was asked about - keyed on sizes or not keyed at all - now holds the twin's values."""
+    mesh = getattr(disc, "mesh", None)
+    model = getattr(disc, "model", None)
+    if mesh is None or model is None:
+        return
+    tm, state = _twin_model(model)
+    if tm is None:
+        return
+    if isinstance(mesh, mesh2.mesh2d):
+        nx, ny = int(mesh.nx), int(mesh.ny)
+        for (a, b) in {(ny, nx), (nx, ny)}:
+            tmesh = mesh2.mesh2d(a, b, 1.7 * float(mesh.lx) + 0.3, 0.6 * float(mesh.ly) + 0.1)
+            per = {"type": "per"}
+            td = _real["modeldisc"].fvm2d(tm, tmesh, xnum.extrapol2dk(0.25), {"left": per, "right": per, "top": per, "bottom": per}, numflux="hlle")
+            n = tmesh.ncell
+            wob = 1.0 + 0.05 * np.cos(1.3 * np.arange(n))
+            f = field.fdata(tm, tmesh, [state[0] * wob, np.array([state[1][0] * wob, state[1][1] * np.ones(n)]), state[2] * wob])
+            td.rhs(f)
+            td.calc_timestep(f, 0.77)
+        return
+    if not hasattr(mesh, "xf"):
+        return
+    n = int(mesh.ncell)
+    L = float(mesh.xf[-1] - mesh.xf[0])
+    tmesh = mesh1.unimesh(ncell=n, length=0.37 * L + 0.11, x0=float(mesh.xf[0]) + 2.2)
+    td = _real["modeldisc"].fvm(tm, tmesh, xnum.extrapolk(0.25))
+    wob = 1.0 + 0.05 * np.cos(1.3 * np.arange(n))
+    f = field.fdata(tm, tmesh, [c * wob for c in state])
+    td.rhs(f)
+    td.calc_timestep(f, 0.77)
+
+
+def _make_decoys(made=None):
     if _decoy["busy"]:
         return
     _decoy["n"] += 1
@@ -48,6 +102,8 @@ def _make_decoys():
     _decoy["busy"] = True
     try:
         with np.errstate(all="ignore"):
+            if made is not None:
+                _shape_twin(made)
             _real["euler"].euler1d(gamma=1.234)
             _real["euler"].euler2d(gamma=1.876)
             _real["euler"].nozzle(lambda x: 1.0 + 0.1 * x, gamma=1.11)
@@ -76,7 +132,7 @@ class _Proxy:
         if k in self._names:
             def ctor(*a, **kw):
                 o = obj(*a, **kw)
-                _make_decoys()
+                _make_decoys(o if k.startswith("fvm") else None)
                 return o
             ctor.__name__ = k
             for attr in ("_numfluxdict", "_bcdict", "_vardict"):      # class-level registries are read by the harness through the proxy
